@@ -13,7 +13,9 @@ META = {
                   'succeeds with length L <= sz, encoding the decoded structure returns L and writes the same L bytes except that a skipped format-chunk extension is written as zeros '
                   '(PCM, float+fact, extensible with and without the 22-byte extension are cases of one proof).',
     'level_note': 'Trusted: Lean kernel (standard axioms; byte-order lemmas via bv_decide certificates as listed in trusted_base); the hand model of wavheader.c/pack.c, validated on every run against the real code; '
-                  'int arithmetic of rf_wavheader_init is modelled as wrapping (gcc), no product overflows inside the proved scope; memcmp/memcpy/memset are libc and modelled as list operations; '
+                  'int arithmetic of rf_wavheader_init is modelled as wrapping (gcc); the proved scope (Scope in Props/C13.lean) is: format in {S16LE,S32LE,FLOAT}, rate < 2^31, channels*width < 2^16, rate*width*channels < 2^32 '
+                  '(and rate*width < 2^32, which only binds for 0 channels), header length - 8 + frames*block alignment < 2^32, frames*channels < 2^32; products between 2^31 and 2^32 rely on gcc\'s wrapping of the int multiplication; '
+                  'memcmp/memcpy/memset are libc and modelled as list operations; '
                   'struct layout (80 bytes, no padding, x86-64) is used only by the harness to inject prior contents.',
     'design_ref': '§6 C13',
 }
@@ -232,7 +234,7 @@ def mutate(rng, hdr):
 
 def gen_decode_first(rng, hdr):
     L = len(hdr)
-    h = [f'dec {L} {pw.hx(hdr)}', 'show', f'enc {L + rng.choice([0, 0, 3])}', 'validate']
+    h = [f'dec {L} {pw.hx(hdr)}', 'show', 'getfmt', 'tostring', f'enc {L + rng.choice([0, 0, 3])}', 'validate']
     if rng.chance(1, 2):
         h += [f'decbuf {L}', 'show']
     return h
@@ -264,10 +266,10 @@ def run(ctx):
                 fr = rng.choice([1, 100, 4410, rng.below(1 << 20)])
                 hs.append(([rand_prior(rng)] if dirty else []) + [f'init {rng.choice(RATES[1:8])} {nch} {f}', f'frames {fr}', 'show', 'validate',
                           f'enc {HLEN[f]}', f'decbuf {HLEN[f]}', 'show', 'validate'])
-    hs += [gen_init(rng) for _ in range(400 if q else 6000)]
+    hs += [gen_init(rng) for _ in range(1500 if q else 30000)]
     ninit = len(hs) - ncorpus
     dec = []
-    for _ in range(12 if q else 150):
+    for _ in range(30 if q else 500):
         for hdr in valid_headers(rng):
             dec.append(gen_decode_first(rng, hdr))
             for _ in range(3):
@@ -282,6 +284,10 @@ def run(ctx):
         for l in h:
             ops[l.split()[0]] = ops.get(l.split()[0], 0) + 1
     ctx.cov['traces_validated_against_impl'] = agreed
+    if ctx.tier == 'thorough':
+        R = vlib.REPO
+        ctx.cov['line_coverage_of_modelled_code'] = pw.uncovered_lines(ctx, os.path.join(vlib.VERIF, 'harness/h_wav.c'),
+            [R + '/librfn/wavheader.c', R + '/librfn/pack.c', R + '/librfn/string.c', R + '/librfn/util.c', R + '/librfn/posix/time_posix.c'], hs)
     ctx.cov['ops_histogram'] = ops
     ctx.cov['histories'] = {'corpus': ncorpus, 'init_stream': ninit, 'decode_first_stream': len(dec)}
     fm = {}
